@@ -69,23 +69,38 @@ def check_map(ctx, traces, area, kind, ar, t, w_frac, res, stream, backends):
     except Exception as e:
         res.disagreements.append(Disagreement(stream, dict(case, step="precursor_grid"), "table", f"{type(e).__name__}: {str(e)[:160]}", True, "contour_grid(precursor_grid=...) raised"))
         return
-    # grid geometry vs the model
-    m = parse_resp(ctx.driver.batch([f"grid xmin={rat(xmin)} ymin={rat(ymin)} xmax={rat(xmax)} ymax={rat(ymax)} w={rat(w)}"])[0])
-    cells = [tuple(float(F(v)) for v in c.split(",")) for c in m["cells"].split(";")] if m.get("cells") else []
-    res.distribution["cells"] = res.distribution.get("cells", 0) + len(cells)
-    problems = []
-    if len(g) != len(cells):
-        problems.append(f"{len(g)} cells, model {len(cells)} (rows {m['rows']} x cols {m['cols']})")
+    # grid geometry vs the model. The code computes rows / cols as ceil of a FLOAT quotient; when extent / width is within
+    # rounding of an integer (e.g. width = extent / 3) the exact quotient and the float quotient can fall on different sides
+    # of that integer, so both neighbouring counts are accepted there (the cover check below has the matching tolerance).
+    def near_int(q):
+        return abs(q - round(q)) < F(1, 10**9)
+
+    wq = F(w)
+    if near_int(F(xmax - xmin) / wq) or near_int(F(ymax - ymin) / wq):
+        w_variants = [wq * (1 - F(1, 10**8)), wq * (1 + F(1, 10**8))]
+        res.distribution["near_integer_quotient"] = res.distribution.get("near_integer_quotient", 0) + 1
     else:
-        tol = 1e-9 * max(1.0, abs(xmax), abs(ymax)) + 64 * w * 2.3e-16 * len(cells)
-        for geom, (l, b_, r, tp) in zip(g.geometry.values, cells):
-            bl, bb, br, bt = geom.bounds
-            if max(abs(bl - l), abs(bb - b_), abs(br - r), abs(bt - tp)) > tol or abs(geom.area - w * w) > 1e-9 * w * w:
-                problems.append(f"cell {geom.bounds} is not the model cell {(l, b_, r, tp)} (order / size / position)")
-                break
-        # union covers every branch (up to the accumulated rounding of the edges, F11)
-        if not (min(c[0] for c in cells) <= xmin + tol and max(c[2] for c in cells) >= xmax - tol and min(c[1] for c in cells) <= ymin + tol and max(c[3] for c in cells) >= ymax - tol):
-            problems.append("union of the cells does not contain the branch bounds")
+        w_variants = [wq]
+    problems = []
+    for wv in w_variants:
+        m = parse_resp(ctx.driver.batch([f"grid xmin={rat(xmin)} ymin={rat(ymin)} xmax={rat(xmax)} ymax={rat(ymax)} w={rat(wv)}"])[0])
+        cells = [tuple(float(F(v)) for v in c.split(",")) for c in m["cells"].split(";")] if m.get("cells") else []
+        problems = []
+        if len(g) != len(cells):
+            problems.append(f"{len(g)} cells, model {len(cells)} (rows {m['rows']} x cols {m['cols']})")
+        else:
+            tol = 1e-9 * max(1.0, abs(xmax), abs(ymax)) + 64 * w * 2.3e-16 * len(cells) + (2e-8 * w * max(int(m['rows']), int(m['cols'])) if len(w_variants) > 1 else 0.0)
+            for geom, (l, b_, r, tp) in zip(g.geometry.values, cells):
+                bl, bb, br, bt = geom.bounds
+                if max(abs(bl - l), abs(bb - b_), abs(br - r), abs(bt - tp)) > tol or abs(geom.area - w * w) > 1e-9 * w * w:
+                    problems.append(f"cell {geom.bounds} is not the model cell {(l, b_, r, tp)} (order / size / position)")
+                    break
+            # union covers every branch (up to the accumulated rounding of the edges, F11)
+            if not (min(c[0] for c in cells) <= xmin + tol and max(c[2] for c in cells) >= xmax - tol and min(c[1] for c in cells) <= ymin + tol and max(c[3] for c in cells) >= ymax - tol):
+                problems.append("union of the cells does not contain the branch bounds")
+        if not problems:
+            break
+    res.distribution["cells"] = res.distribution.get("cells", 0) + len(cells)
     # per-cell values vs exact recomputation for a sample of cells
     if not problems:
         idxs = sorted(set([0, len(g) - 1] + list(range(0, len(g), max(1, len(g) // 6)))))
